@@ -214,6 +214,31 @@ static void config_case(uint32_t k, uint32_t r, uint32_t N1, uint32_t seed, int 
 	rep_case_done(nontriv, hash64(hash64(k, r), hash64(N1, seed)) ^ (uint64_t)mode, 0);
 }
 
+/* C15 on parameter sets the documentation puts outside the limits (N1 > n-k): the library may refuse them; if it accepts one,
+ * "for all accepted parameters" applies and a true claim must still be truthful. No reference matrix is involved. */
+static void claim_case_outside(uint32_t k, uint32_t r, uint32_t N1, uint32_t seed, rng_t *rng)
+{
+	cfg_t c = { 3, 0, k, r, 8, N1, seed };
+	if (!rep_case("ldpc-config-outside-limits k=%u r=%u N1=%u seed=%u", k, r, N1, seed)) return;
+	int ce = -1, cd = -1;
+	of_session_t *e = make_session(&c, OF_ENCODER, &ce), *d = make_session(&c, OF_DECODER, &cd);
+	if (e) of_release_codec_instance(e);
+	if (d) of_release_codec_instance(d);
+	if (!e || !d) { rep_count("outside_limit_configs_refused", 1); rep_case_done(1, 0, 1); return; }
+	rep_count("outside_limit_configs_accepted", 1);
+	if (ce != cd) rep_viol("null-claim-enc-dec", "encoder claims %d, decoder claims %d (k=%u r=%u N1=%u seed=%u)", ce, cd, k, r, N1, seed);
+	if (ce == 1 || cd == 1) {
+		rep_count("true_claims_observed", 1);
+		for (int p = 0; p < 4; p++) {
+			cfg_t c2 = c; c2.L = LENS[rng_below(rng, 5)]; block_t b; const char *sv = g_prop; g_prop = "";
+			int rc = block_build(&b, &c2, p == 0 ? PAY_IDENTITY : PAY_RANDOM, rng, 0, -1); g_prop = sv;
+			if (rc == 0) { for (uint32_t x = 0; x < c2.L; x++) if (b.sym[k + r - 1][x]) { rep_viol("null-claim-false", "claim true but the last repair symbol is non-zero (k=%u r=%u N1=%u seed=%u L=%u, accepted although N1 > n-k)", k, r, N1, seed, c2.L); break; } rep_count("random_blocks_checked_under_true_claim", 1); }
+			block_free(&b);
+		}
+	}
+	rep_case_done(1, 0, 1);
+}
+
 static int worker(void)
 {
 	ar_init();
@@ -270,6 +295,16 @@ static int worker(void)
 				}
 			}
 		}
+		/* outside the documented limits: N1 above n-k, n-k below 3 */
+		rep_unit(unit);
+		if (rep_unit_mine(unit)) {
+			rng_t rng = rng_make(g_run.seed, 565, 0);
+			static const uint32_t ok_[] = { 1, 2, 5, 20, 100 };
+			for (unsigned i = 0; i < 5; i++) for (uint32_t N1 = 3; N1 <= 12; N1++) for (uint32_t r = 1; r < N1; r++)
+				claim_case_outside(ok_[i], r, N1, fixed_seeds[(i + N1 + r) % 4], &rng);
+			for (unsigned i = 0; i < 5; i++) for (uint32_t r = 1; r <= 2; r++) for (uint32_t N1 = 1; N1 <= 2; N1++) claim_case_outside(ok_[i], r, N1, 1, &rng);
+		}
+		unit++;
 		/* random low-rate family */
 		for (int u = 0; u < 16; u++, unit++) {
 			rep_unit(unit);
